@@ -332,7 +332,9 @@ def run_unit(unit, tier="quick", seeds=None):
                 res["rlimit_retries"].append({"function": k, "wall_s": round(wall2, 1), "verified": bool(okv), "errors": len(errs2)})
                 if okv:
                     continue
-                keep += errs2 if errs2 else [retried[k]]
+                conc2 = [d for d in errs2 if not re.search(r"Resource limit \(rlimit\) exceeded", d["message"])]
+                # a named failed obligation decides the function even if other queries of it stayed out of resources
+                keep += conc2 if conc2 else (errs2 if errs2 else [retried[k]])
             errs = keep
             if not errs:
                 vr = dict(vr, success=True)
